@@ -5,6 +5,7 @@ import re
 from mc.core import UnitResult
 
 ID = "C11"
+PARTS = ['comment', 'disable', 'disable-other', 'route-cli', 'route-override', 'route-override-longer', 'route-override-parent', 'route-override-prefix', 'route-top-level']      # outcome classes every run must produce (guards against a part of the exploration silently not running)
 RULE = ("state = base program (every selection of <= 2/3 diagnostic lines from a pool incl. two codes on one line, a multi-line statement, first-line and last-line errors, the marker "
         "text inside a string literal) + one event: disable any subset of the occurring codes, or insert one/two ignore comments at any line in trailing or own-line form, bare / "
         "matching code / other code, with unused_ignore and bare_ignore on or off; real: the failures of NameCheckVisitor.check(); oracle: projection model — disabling removes "
